@@ -24,6 +24,7 @@ pub fn stack() -> (r: bool) ensures r == stack_spec() { unimplemented!() }
 
 verus! {
 //@include common.rs
+//@include std_extra.rs
 //@include arith_spec.rs
 
 //@item src/symbol.rs enum Register
